@@ -144,7 +144,7 @@ fn new_request(rng: &mut Rng, k: u64, srv: Option<&[u8]>) -> Vec<u8> {
 
 /// one burst: every socket sends `per_sock` requests, then all replies are collected
 pub fn probe(port: u16, n_socks: usize, per_sock: usize, rng: &mut Rng, srv: &[u8], wait_ms: u64) -> Vec<Exchange> {
-    let socks: Vec<UdpSocket> = (0..n_socks).map(|_| { let s = UdpSocket::bind("127.0.0.1:0").unwrap(); s.set_read_timeout(Some(Duration::from_millis(20))).unwrap(); s }).collect();
+    let socks: Vec<UdpSocket> = (0..n_socks).map(|_| { let s = UdpSocket::bind("127.0.0.1:0").unwrap(); s.set_nonblocking(true).unwrap(); s }).collect();
     let mut ex = vec![];
     for j in 0..per_sock {
         for (i, s) in socks.iter().enumerate() {
@@ -171,6 +171,7 @@ pub fn probe(port: u16, n_socks: usize, per_sock: usize, rng: &mut Rng, srv: &[u
                 if let Some(ix) = idx { ex[ix].replies.push(buf[..n].to_vec()); ex[ix].t_after = t; got += 1; }
             }
         }
+        std::thread::sleep(Duration::from_millis(3));
         if got >= want && extra_deadline.is_none() { extra_deadline = Some(Instant::now() + Duration::from_millis(60)); }   // linger for duplicates
         if let Some(d) = extra_deadline { if Instant::now() > d { break; } }
         if Instant::now() > deadline { break; }
